@@ -29,11 +29,44 @@ SpanOpenTok(c) == FixedTok(c)
 SpanCloseTok(c) == FixedTok(CASE c = "PRE" -> "EPRE" [] c = "DIV" -> "EDIV" [] c = "SPAN" -> "ESPAN" [] c = "REF" -> "EREF")
 OpenFil(line) ==
   IF "o" \in DOMAIN line THEN << [k |-> "SP", n |-> 1], SpanOpenTok(line.o), [k |-> "TXT", a |-> <<"x">>] >> ELSE <<>>
+(* ---- round 9: the WHITE SPACE AROUND THE TOKENS of a structure line (spelling variants) ---- *)
+\* A heading / list / rule / paragraph line may carry the field
+\*   ws |-> [a |-> Seq(WsAtoms), b |-> Seq(WsAtoms), e |-> Seq(WsAtoms)]
+\*     a  H: between the opening '=' run and the title      L: between the marker and the word (<<>>: none)
+\*     b  H: between the title and the closing '=' run
+\*     e  the white space at the END of the line: H: after the closing '=' run; R: after '----'; L, P: after the text
+\* Without the field the line has its canonical spelling (a = b = one blank, e = nothing).  The relations of the
+\* nesting model do not depend on the spelling (RefRelations never reads ws): a heading line is a heading whatever
+\* white space follows its end token.  Which characters count is a tokenizer fact, stated here as data:
+\*   header_re = ^(={1,6})\s*(title)\s*(={1,6})\s*$     -> a, b, e of a heading line range over HeadWs (Python's \s)
+\*   token [ \t]+                                        -> a / e of list, rule and paragraph lines are BLANK tokens
+\* WsStrict: blank, TAB, carriage return (CRLF text) -- MediaWiki trims them as well: statement-backed.
+\* WsExotic: form feed, vertical tab, U+00A0, U+3000 -- white space for Python's \s only: beyond the statement (DRIFT).
+WsStrict == {"SP", "TAB", "CR"}
+WsExotic == {"FF", "VT", "NBSP", "IDSP"}
+HeadWs == WsStrict \cup WsExotic
+BlankWs == {"SP", "TAB"}
+HasWs(line) == "ws" \in DOMAIN line
+WsA(line) == IF HasWs(line) THEN line.ws.a ELSE <<"SP">>
+WsE(line) == IF HasWs(line) THEN line.ws.e ELSE <<>>
+Blanks(s) == IF s = <<>> THEN <<>> ELSE << [k |-> "SP", n |-> Len(s)] >>
+SeqIn(s, S) == \A j \in 1..Len(s) : s[j] \in S
+\* the spelling is one the tokenizer facts above speak about
+WsLineOK(line) ==
+  HasWs(line) =>
+    IF line.t = "H" THEN SeqIn(line.ws.a, HeadWs) /\ SeqIn(line.ws.b, HeadWs) /\ SeqIn(line.ws.e, HeadWs)
+    ELSE line.t \in {"L", "R", "P"} /\ SeqIn(line.ws.a, BlankWs) /\ line.ws.b = <<>> /\ SeqIn(line.ws.e, BlankWs)
+         /\ (line.t # "L" => line.ws.a = <<>>)
+WsOK(d) == \A j \in 1..Len(d) : WsLineOK(d[j])
+\* the document has a spelling outside the strict set (only heading lines can)
+WsExoticDoc(d) == \E j \in 1..Len(d) : HasWs(d[j]) /\ ~(SeqIn(d[j].ws.a, WsStrict) /\ SeqIn(d[j].ws.b, WsStrict) /\ SeqIn(d[j].ws.e, WsStrict))
 Tokens(line, i) ==
   LET w == [k |-> "TXT", a |-> <<W(i)>>] IN
+  \* (a heading line: header_re drops the white space around the title and after the end token -- ws is not read)
   CASE line.t = "H" -> << [k |-> "HS", l |-> line.l], w >> \o Fil(line) \o << [k |-> "HE", l |-> line.l], [k |-> "NL"] >>
-    [] line.t = "L" -> << [k |-> "LP", p |-> line.p], [k |-> "SP", n |-> 1], w >> \o Fil(line) \o OpenFil(line) \o << [k |-> "NL"] >>
-    [] line.t = "P" -> << w >> \o Fil(line) \o OpenFil(line) \o << [k |-> "NL"] >>
+    [] line.t = "L" -> << [k |-> "LP", p |-> line.p] >> \o Blanks(WsA(line)) \o << w >> \o Fil(line) \o OpenFil(line)
+                       \o Blanks(WsE(line)) \o << [k |-> "NL"] >>
+    [] line.t = "P" -> << w >> \o Fil(line) \o OpenFil(line) \o Blanks(WsE(line)) \o << [k |-> "NL"] >>
     \* an indented line: the blank at the line start opens (or continues) a preformatted block, which is still
     \* open when the next line arrives
     [] line.t = "I" -> << [k |-> "SP", n |-> 1], w >> \o Fil(line) \o OpenFil(line) \o << [k |-> "NL"] >>
@@ -43,7 +76,7 @@ Tokens(line, i) ==
                        \o << [k |-> "NL"] >>
     \* a line that opens a construct and leaves it open (unbalanced; outside the property)
     [] line.t = "O" -> OpenToks(line.c, w) \o << [k |-> "NL"] >>
-    [] line.t = "R" -> << [k |-> "HR"], [k |-> "NL"] >>
+    [] line.t = "R" -> << [k |-> "HR"] >> \o Blanks(WsE(line)) \o << [k |-> "NL"] >>
     [] line.t = "B" -> << [k |-> "NL"] >>
 
 (* ------------------------------------------------------------------------ *)
